@@ -24,7 +24,7 @@ class C08(ProgramProperty):
         return 100000 if tier == "quick" else 600000
 
     def avoid(self):
-        return {'C01-F1', 'C01-F2', 'C01-F3', 'C01-F22', 'C01-F23'}
+        return {'C01-F2', 'C01-F3'}
 
     def open(self):
         return open_ids('C01') | open_ids('C08')
